@@ -227,8 +227,23 @@ class Gen:
                 self.count(flag)
                 if flag == "no-help-sub":
                     node["help"] = False
+        first_arg = len(items)
         for _ in range(r.choice([0, 1, 1, 2, 3, 4])):
             items.append(self.arg())
+        # conflicts_with between options of the level (zsh writes them as exclusion lists `(-x --exclude)`; the other
+        # generators do not read them): an option conflicting with >= 2 spellings makes the list's ORDER observable
+        # (seeded change seed2/C16-3: collecting the list in a HashSet made generation non-deterministic)
+        if len(items) - first_arg >= 2 and r.random() < self.opt("conflicts", 0.3):
+            ids = [re.match(r"\(arg (x[0-9a-f]*)", x).group(1) for x in items[first_arg:]]
+            # not on a global argument: it is copied into subcommands where its conflict targets do not exist
+            cand = [j for j in range(len(ids)) if "(global)" not in items[first_arg + j]] or [0]
+            k = r.choice(cand)
+            others = [i for j, i in enumerate(ids) if j != k]
+            r.shuffle(others)
+            chosen = others[:r.choice([1, 2, 3])]
+            if "(global)" not in items[first_arg + k]:
+                items[first_arg + k] = items[first_arg + k][:-1] + " (cx %s))" % " ".join(chosen)
+                self.count("args-with-conflicts")
         npos = r.choice([0, 0, 0, 1, 1, 2])
         for i in range(npos):
             items.append(self.arg(positional=True, first_pos=(i == 0), last_pos=(i == npos - 1)))
